@@ -63,6 +63,8 @@ OBLIGATIONS = [
     {"id": "C10_Q3a", "theorem": "Iora.C10.Q3_close_wakes_all", "kind": "proved",
      "statement": "after close() returned nobody is asleep on either condition variable"},
     {"id": "C10_Q3b", "theorem": "Iora.C10.Q3_closed_refuses", "kind": "proved", "statement": "once closed: closed for ever and no further push"},
+    {"id": "C10_Q3b_step", "theorem": "Iora.C10.Q3_push_only_while_open", "kind": "proved",
+     "statement": "EVERY reachable state, EVERY next step of ANY thread: with _closed set the step pushes nothing, the queue does not grow and stays closed (a push step starts from an open queue) - incl. a producer asleep on the full queue that is woken by take + another thread's close() (seed C10-e)"},
     {"id": "C10_Q3c", "theorem": "Iora.C10.Q3_retrievable", "kind": "proved",
      "statement": "a take that gets the mutex on a non-empty queue takes the oldest item without waiting, closed or not"},
     {"id": "C10_Q3d", "theorem": "Iora.C10.Q3_drain_after_close", "kind": "proved",
@@ -91,7 +93,7 @@ OBLIGATIONS = [
     {"id": "C10_skel_disciplined", "theorem": "Iora.C10.skeleton_disciplined", "kind": "proved",
      "statement": "every write of a wait-predicate variable is under _mutex and followed by the matching notify; waits and deque accesses hold _mutex (decide over the extracted skeleton)"},
 ]
-LEAN_MODULES = ["IoraModel.Props.C10", "IoraModel.Lemmas.RingThrow", "IoraModel.Lemmas.RingSpscObs", "IoraModel.Lemmas.BlockingQueueDestroy", "IoraModel.Model.RingThrow", "IoraModel.Model.BqSkelTrace", "IoraModel.Lemmas.RingBuffer", "IoraModel.Lemmas.RingSpsc", "IoraModel.Lemmas.BlockingQueue",
+LEAN_MODULES = ["IoraModel.Props.C10", "IoraModel.Lemmas.RingThrow", "IoraModel.Lemmas.RingSpscObs", "IoraModel.Lemmas.BlockingQueueDestroy", "IoraModel.Lemmas.BlockingQueueClosedPush", "IoraModel.Model.RingThrow", "IoraModel.Model.BqSkelTrace", "IoraModel.Lemmas.RingBuffer", "IoraModel.Lemmas.RingSpsc", "IoraModel.Lemmas.BlockingQueue",
                 "IoraModel.Lemmas.BlockingQueueLogs", "IoraModel.Lemmas.MonitorBroadcast", "IoraModel.Lemmas.BlockingQueueBroadcast", "IoraModel.Model.RingBuffer", "IoraModel.Model.RingSpsc", "IoraModel.Model.Monitor",
                 "IoraModel.Model.BlockingQueue", "IoraModel.Model.BqSkel", "IoraModel.Gen.Orders", "IoraModel.Gen.BqSkel"]
 NOT_PROVED = [
@@ -790,7 +792,8 @@ def sched_monitor(c, res):
         return bad
     # capacity and flag at every scheduling point
     prev_closed = 0
-    for e in res["events"]:
+    prev_n = None
+    for i, e in enumerate(res["events"]):
         f = e.split(".")
         if f[3] == "?":
             continue
@@ -801,7 +804,19 @@ def sched_monitor(c, res):
         if cl < prev_closed:
             bad.append("Q3: closed flag went back to false at `%s`" % e)
             break
+        # "closing refuses further items", across threads: once the flag was seen set at a scheduling point, no later step of ANY thread
+        # may push (the flag is monotone and every push is made under _mutex after re-reading it: Iora.C10.Q3_push_only_while_open).
+        # A put that pushed BEFORE the flag was set is fine - then the previous point still shows closed = 0.
+        if prev_closed == 1 and prev_n is not None and n > prev_n:
+            who = int(f[0])
+            call = " (a step of thread %d: %s)" % (who, ",".join(c["progs"][who - 1]) if 0 < who <= len(c["progs"]) else "?")
+            bad.append("Q3: an item is put into a CLOSED queue: at step %d `%s`%s the queue grows %d -> %d although close() had already taken "
+                       "effect at the previous scheduling point (closing must refuse further items - also from a producer that was asleep "
+                       "on the full queue and is woken by a take followed by close()); rets=%s"
+                       % (i, e, call, prev_n, n, "/".join(res["rets"])))
+            break
         prev_closed = cl
+        prev_n = n
     # results per thread
     puts = {}   # value -> producer thread
     put_order = {}
